@@ -155,19 +155,26 @@ fn gen_large(n: usize, k: usize, t: usize, wmax: u64, mult: u64, seed: u64, mode
     for i in 0..n {
         let tail = i >= n - t;
         x = lcg(x);
+        let w_src = x;
         let mut w = 1 + (x >> 16) % wmax;
         if tail {
             w *= mult;
         }
         x = lcg(x);
         let r = x >> 16;
-        let q = if mode == 0 {
+        let mut q = if mode == 0 {
             r % k as u64
         } else if tail {
             k as u64 - 1
         } else {
             r % (k as u64 - 1)
         };
+        if mode == 2 {
+            // many moves: heavy weights first (one per part), then `t` small weights all in part 0, then
+            // small weights in random parts
+            w = if i < k { mult } else { 1 + (w_src >> 16) % wmax };
+            q = if i < k { i as u64 } else if i < k + t { 0 } else { r % k as u64 };
+        }
         ws.push(w as i64);
         ps.push(q as usize);
     }
@@ -400,12 +407,114 @@ fn main() {
     let mut f64_genuine = 0usize;
     let mut f64_hangs = 0usize;
     let mut large = 0usize;
+    let mut many = 0usize;
+    let mut many_ge_1024 = 0usize;
     let mut scaled = 0usize;
     let big = a.tier == "thorough";
     let mut idx = 0usize;
     while idx < a.cases {
         let mut r = rng.fork();
         let alg = r.below(2);
+        if r.chance(1, 500) || idx % 1000 == 7 {
+            // ---- many-moves family: ONE VnBest run with 1100..5000 moves (one heavy weight per part that can
+            // never move, then a surplus of small weights in part 0 that has to be moved away one by one, then
+            // small weights in random parts), or 1100..2000 successive VnFirst calls on the same value (VnFirst
+            // relabels one element per call).  Described to Coq like the large family (gen14, mode 2), judged
+            // by the certified checker on the exact loads of the final array against the initial one.
+            let k = r.range(2, 4) as usize;
+            let wmax = *r.pick(&[1u64, 1, 3]);
+            let target = if alg == 0 { r.range(1100, if wmax == 1 { 5000 } else { 2500 }) } else { r.range(1100, 2000) } as usize;
+            let extra = if wmax == 1 { target * k / (k - 1) + 8 } else { 3 * k * target / (2 * (k - 1)) + 8 };
+            let n = k + extra + r.range(500, 2000) as usize;
+            let heavy = 1_000_000u64;
+            let seed = r.below(1 << 31);
+            let flt = r.chance(1, 3);
+            let this = idx;
+            idx += 1;
+            if let Some(o) = a.only {
+                if o != this {
+                    continue;
+                }
+            }
+            many += 1;
+            let (ws, p0) = gen_large(n, k, extra, wmax, heavy, seed, 2);
+            let mut part = if alg == 0 { Part::B(coupe::VnBest) } else { Part::F(coupe::VnFirst) };
+            let calls = if alg == 0 { 1 } else { target };
+            let mut cur = p0.clone();
+            let mut moves = 0usize;
+            let mut status = 0u64;
+            let mut note = String::new();
+            for _ in 0..calls {
+                match call(part, cur.clone(), ws.clone(), flt) {
+                    Guarded::Done(((Ok(cnt), p), pt)) => {
+                        part = pt;
+                        if alg == 0 {
+                            moves = cnt;
+                        } else if p != cur {
+                            moves += 1;
+                        }
+                        let stop = p == cur;
+                        cur = p;
+                        if stop {
+                            break;
+                        }
+                    }
+                    Guarded::Done(((Err(e), _), _)) => {
+                        status = 2;
+                        note = format!("{:?}", e);
+                        break;
+                    }
+                    Guarded::Panic(m) => {
+                        c.panics += 1;
+                        status = 3;
+                        note = m;
+                        break;
+                    }
+                    Guarded::Hang => {
+                        c.hangs += 1;
+                        status = 4;
+                        break;
+                    }
+                }
+            }
+            if moves >= 1024 {
+                many_ge_1024 += 1;
+            }
+            if flt {
+                c.f64_runs += 1;
+            }
+            let diff: Vec<(usize, usize)> = if status == 0 && cur.len() == p0.len() {
+                cur.iter().zip(&p0).enumerate().filter(|(_, (x, y))| x != y).map(|(i, (x, _))| (i, *x)).collect()
+            } else {
+                if status == 0 {
+                    status = 2;
+                }
+                vec![]
+            };
+            if !diff.is_empty() {
+                c.moved += 1;
+            }
+            let (l0, g0) = exact_gap(&ws, &p0, k);
+            let (l1, g1) = exact_gap(&ws, &cur, k);
+            let dcoq: Vec<String> = diff.iter().map(|(i, v)| format!("({},{})", i, v)).collect();
+            let coq = format!(
+                "mk14L {}%N {} {} {} {} {} {} {} 2 {} [{}]%N",
+                alg, coq_bool(flt), n, k, extra, wmax, heavy, seed, status, dcoq.join(";")
+            );
+            let djson: Vec<String> = diff.iter().map(|(i, v)| format!("[{},{}]", i, v)).collect();
+            let json = format!(
+                "{{\"algorithm\":\"{}\",\"f64\":{},\"many_moves\":{{\"n\":{},\"parts\":{},\"surplus_in_part_0\":{},\"wmax\":{},\"heavy\":{},\"seed\":{},\"calls\":{},\"moves\":{},\"generator\":\"x=(x*1103515245+12345)&0x7fffffff twice per element; element i<parts: weight heavy, part i; next `surplus` elements: weight 1+(x1>>16)%wmax, part 0; rest: same weight rule, part (x2>>16)%parts\"}},\"weights\":{},\"partition\":{},\"output_diff\":[{}],\"impl\":{{\"status\":{},\"note\":{},\"loads_in\":{:?},\"gap_in\":{},\"loads_out\":{:?},\"gap_out\":{}}}}}",
+                if alg == 0 { "VnBest" } else { "VnFirst (successive calls on one value)" },
+                flt, n, k, extra, wmax, heavy, seed, calls, moves,
+                json_i64s(&ws),
+                json_usizes(&p0),
+                djson.join(","),
+                status, json_str(&note), l0, g0, l1, g1
+            );
+            let key = format!("many|{}|{}|{}|{}|{}|{}|{}", alg, flt, n, k, extra, wmax, seed);
+            w.push(coq, json, &key, true, &format!("{}:many_moves", if alg == 0 { "best" } else { "first" }));
+            continue;
+        }
         if r.chance(1, 400) || idx % 800 == 3 {
             // ---- large family: more than 4096 weights, a length that is not a multiple of 4096, and in the
             // last len % 4096 positions enough weight to decide which part is the heaviest (mode 1: ALL the
@@ -711,7 +820,7 @@ fn main() {
         }
     }
     w.finish(&format!(
-        "\"hangs\":{},\"panics\":{},\"f64_runs\":{},\"f64_genuine\":{},\"f64_vnbest_hangs\":{},\"moved\":{},\"reuse_sequences\":{},\"reuse_calls\":{},\"large\":{},\"scaled\":{}",
-        c.hangs, c.panics, c.f64_runs, f64_genuine, f64_hangs, c.moved, reuse_sequences, reuse_calls, large, scaled
+        "\"hangs\":{},\"panics\":{},\"f64_runs\":{},\"f64_genuine\":{},\"f64_vnbest_hangs\":{},\"moved\":{},\"reuse_sequences\":{},\"reuse_calls\":{},\"large\":{},\"scaled\":{},\"many_moves_cases\":{},\"many_moves_with_1024_or_more\":{}",
+        c.hangs, c.panics, c.f64_runs, f64_genuine, f64_hangs, c.moved, reuse_sequences, reuse_calls, large, scaled, many, many_ge_1024
     ));
 }
